@@ -163,6 +163,22 @@ def gen_nth(tier, r):
                      (400, UMAX - 20000), (-1000, UMAX - 7), (40, 2**63 - 5), (-40, 2**63 + 5), (7, 2**32 - 3), (-7, 2**32 + 3)]:
         op("top", n, start)
     # large prime starts: the Riemann-R estimate may land below start (n = 0, 1 must not move back)
+    # hook H4: nthPrimeApprox() replaced by a constant below / at / above start: forces each correction walk
+    # (estimate below start: the clamp; small overshoot: short walk; large overshoot: bulk count + backward walk)
+    def opabs(label, n, start, v):
+        ops.append((label, f"nth {n} {start} {r.choice([1, 4])} {r.choice([16, 33, 256])} {r.choice(['cpp', 'c'])} abs={max(0, min(UMAX, v))}"))
+    for start in ([0, 10**6, 10**10 + 19] if q else [0, 1, 1000, 10**6, 10**8 + 7, 10**10 + 19, 10**12 + 39]):
+        for n in ([1, 7, 300] if q else [1, 2, 7, 50, 300, 2000]):
+            isq = int(start ** 0.5) // 10 + 1
+            for v in [0, start - 5 * isq - 10, start - 1, start, start + 1, start + isq // 2, start + 3 * isq + 50 * n, start + 400 * n + 10 * isq]:
+                opabs("forced-walk", n, start, v)
+            opabs("forced-walk", 0, start, 0)
+            if start > 100 * n:
+                for v in [max(0, start - 2 * 10**7), start - 400 * n - 10 * isq, start - 3 * isq - 20 * n, start - 1, start, start + 1, start + 10 * isq, UMAX]:
+                    opabs("forced-walk-neg", -n, start, v)
+    for start, n, v in [(UMAX - 1000, 3, 0), (UMAX - 1000, 3, UMAX), (UMAX - 10**6, 100, UMAX), (MAXPRIME64 - 1, 1, 0), (UMAX, -1, UMAX - 10**6), (UMAX, -3, UMAX),
+                        (UMAX - 5, -2, UMAX - 10**7), (2**32, 5, 0), (2**32, -5, UMAX)]:
+        opabs("forced-walk-top", n, start, v)
     for k in ([16, 18, 19] if q else [15, 16, 17, 18, 19]):
         for _ in range(3 if q else 12):
             x = r.randrange(10**k, min(10**(k + 1), UMAX - 10**6))
